@@ -33,3 +33,23 @@ check('C18',
   'Trusted: Kani/CBMC bit-precise IEEE semantics; stub f64::powi(x,2) := x*x; f64::sqrt is CBMC over-approximation (only sign/NaN-freeness is used). A subnormal gamma sample (probability < 1e-400) would overflow 1/precision - excluded by assumption and recorded as an observation.',
   'Kani/CBMC bounded model checking (bit-precise floating point) of in-crate harnesses',
   'DESIGN.md section 3 C18')
+check('C01',
+  'Kernel-level bounded verification of the hard-constraint gates in the real code (not of solver runs): with tours of up to 2 (quick) / 3 (thorough) jobs, closed and open, every insertion position and a fully symbolic target, (a) TransportConstraint::evaluate_activity composed with the real update_route_schedule accepts exactly the insertions whose resulting tour an independent simulation finds feasible, and a `stopped` verdict implies no later position is feasible; (b) the capacity gate composed with the real recalculate_states accepts exactly the insertions whose load profile stays within capacity (mixed static/dynamic demand); (c) TravelLimitConstraint accepts only insertions after which tour distance and duration stay within the limits (distance exact). All decided by z3 (cvc5 cross-check) over the MIR of the real functions; state-level kernels additionally by Kani bit-precisely.',
+  'Trusted: rustc MIR, z3/cvc5, Kani/CBMC; exact-int float abstraction with proved side-conditions; routing uninterpreted and time-independent. The end-to-end quantifier over solves is outside.',
+  'MIR->SMT symbolic execution of the real gates + Kani harnesses; counterexamples replayed natively',
+  'DESIGN.md section 3 C01')
+check('C03',
+  'The numbers a solution reports come from update_route_schedule and get_total_cost: for tours of up to 2/3 jobs (closed/open) the complete real update_route_schedule (all three fold closures, executed from MIR) yields exactly the arrivals, departures, waiting sums, latest arrivals, total distance and total duration of an independent forward/backward simulation, and one step of the real cost fold adds fixed + per_distance*d + time_rate*T for vehicle and driver (None when totals are missing). The pragmatic writer (stop folding, rounding, tags) is outside.',
+  'Trusted: as C01. Cost rates range over the stated vectors (the cost is a linear form in the rates).',
+  'MIR->SMT symbolic execution vs. reference simulation (z3 + cvc5)',
+  'DESIGN.md section 3 C03')
+check('C05',
+  'Mechanism claim: the functions that compute the cached tour state (schedules, latest arrivals, waiting, totals; load caches) are executed from MIR with ARBITRARY stale previous caches and previous schedules as symbolic inputs: every output equals the reference recomputation from the bare tour and provably mentions none of the stale values (history independence), the stale flag is raised by every mutable accessor. Solution-level aggregates and the string-keyed feature states are outside.',
+  'Trusted: as C01.',
+  'MIR->SMT symbolic execution with symbolic stale state (z3 + cvc5)',
+  'DESIGN.md section 3 C05')
+check('C20',
+  'For tours of up to 2/3 jobs, every position and a symbolic target: the real DistanceObjective::estimate equals the change of the total distance, and the real CostObjective route+activity estimate equals the change of the total cost (fixed + distance + time, vehicle and driver) whenever no waiting exists before and after - decided over the MIR of estimate_leg / estimate_activity / analyze_route_leg / the ActivityCost and TransportCost default cost methods, with caches from the real update_route_schedule.',
+  'Trusted: as C01. Unassigned / fleet-usage / total-value estimates are outside (their fitness needs InsertionContext).',
+  'MIR->SMT symbolic execution vs. reference objective delta (z3 + cvc5)',
+  'DESIGN.md section 3 C20')
